@@ -210,6 +210,11 @@ func (s *clSim) recRollout(failAt int) {
 	}
 	after, ok2 := s.world()
 	out["roGone"] = !ok2
+	// the one-step suite reports the workload as it was given, with only the in-progress annotation read back (a derived
+	// flag such as "in rollback" is an input of the reconcile, not something it writes)
+	if before.WL != nil && after.WL != nil {
+		after.WL.InRollback = before.WL.InRollback
+	}
 	wj := J{"wl": after.WL, "br": after.BR, "net": after.Net, "mem": after.Mem}
 	if ok2 {
 		// output canonicalisation of an illegal next-step index (see suite_rolloutsm)
